@@ -810,7 +810,13 @@ func (h *hist) block() bool {
 				full[r.name] = err.Error()
 			}
 		}
-		h.out.Emit(tr.M{"ev": "Diag", "hid": h.id, "h": height, "reproposals": roots, "errors": full,
+		var body []tr.M
+		for _, tx := range blk.Body.Transactions {
+			if rec := h.recs[tx.Hash().Hex()]; rec != nil {
+				body = append(body, rec.m)
+			}
+		}
+		h.out.Emit(tr.M{"ev": "Diag", "hid": h.id, "h": height, "reproposals": roots, "errors": full, "body": body,
 			"block": fmt.Sprintf("%x/%x/txs=%d", blk.Root().Bytes()[:6], blk.IdentityRoot().Bytes()[:6], len(blk.Body.Transactions))})
 	}
 	if h.ref.n.Chain.Head.Height() != height {
@@ -1115,6 +1121,7 @@ func main() {
 	epochs := flag.Bool("epochs", true, "drive validation periods and epoch transitions")
 	schedFile := flag.String("sched", "", "history-shape schedules exported by TLC (json lines)")
 	replays := flag.Bool("replays", false, "offer crafted blocks that re-include / mis-sign transactions")
+	only := flag.Int("only", -1, "run only the history with this index (same seeds and schedules as in a full run)")
 	relFile := flag.String("rel", "", "relationship attempt paths exported by TLC from Relations.tla (json lines)")
 	graphFile := flag.String("graphs", "", "delegation graphs exported by TLC from EpochLoop.tla (json lines); one history per graph")
 	heavy := flag.Bool("identity-heavy", false, "bias the generator towards identity-changing events")
@@ -1164,6 +1171,9 @@ func main() {
 		*nh = len(graphs)
 	}
 	for i := 0; i < *nh; i++ {
+		if *only >= 0 && i != *only {
+			continue
+		}
 		cfg := &scenCfg{blocks: *nb, epochs: *epochs, nProposers: 6, big: *big && i == 0, replays: *replays, heavy: *heavy, reorgs: *reorgs}
 		if len(scheds) > 0 {
 			cfg.sched = scheds[i%len(scheds)]
